@@ -230,10 +230,70 @@ theorem secondary_limits :
 
 /-- structural facts about the `BlockIndex` look-ups, re-read from the source on every run (gen_c05): the entry found
     under the 8-byte key is compared with the WHOLE hash — of the block itself in PreCheckBlock's "already in" test,
-    of the header's previous-block field in PreCheckBlock and in AcceptHeader (fix 533896f3). -/
+    of the header's previous-block field in PreCheckBlock and in AcceptHeader (fix 533896f3). The extractor accepts an
+    `Equal` call only if it mentions the entry, `BlockHash` and `Hash` / `ParentHash` AND none of its operands is
+    indexed or cut (`Hash[:]` is the only slice allowed; `Hash[:16]` stops the translator); the exact operands of the
+    PreCheckBlock comparison are also pinned by `guard_shapes` ("pre/bad-prevblk", "pre/index-collision"). -/
 theorem index_lookups_compare_whole_hash :
     knownHashCompared = true ∧ parentHashCompared = true ∧ acceptHeaderParentHashCompared = true := by
   decide
+
+/-- **Which quantity each guard compares, under which enclosing condition, and that it returns** — the canonical
+    shapes (go/cmd/gen_c05/shape.go) of every marker-carrying guard of PreCheckBlock / PostCheckBlock, of the two
+    assignments `bl.Height = …` / `bl.MedianPastTime = …`, of the commitment search loop, of the lock-time cut-off
+    choice, of every rule of GetBlockFlags and its call, of the retarget timespan expression and of the two base-weight
+    expressions of BuildTxListExt, re-read from the source on every run, are the ones the model was written for; and
+    GetNextWorkRequired walks `targetInterval - 1` parents back. In a shape every bare identifier is `_` (locals are not
+    told apart), constants are folded, `<= c` is `< c+1`, operands / members are sorted. An edit that compares another
+    quantity, flips an operator or polarity, adds or drops a conjunct, drops the `return`, moves a guard under another
+    condition, searches the commitment forwards, cuts the commitment compare, swaps the cut-off branches or the
+    arguments of GetBlockFlags, computes the timespan in 32 bits, measures a constant instead of the counter or walks
+    2014 parents changes a string here. The last three entries are the client's hand reset of a Block object after a
+    corrupt copy (client/network/data.go, cblk.go: the statements of every block that sets `.Txs = nil`), which the
+    harness's retry paths re-implement (go/cmd/c05/entrypaths.go): if the client's reset changes, this theorem fails and
+    the harness copy has to follow. NOT pinned by this: the `unexpected-witness` scan, CheckTransaction(s),
+    GetMedianTimePast, CalcMerkle, the min-difficulty walk — for those the differential harness is the tie. -/
+theorem guard_shapes :
+    guardShapes = [
+      ("pre/bad-blk-length", "len(_.Raw) < 80 -> return"),
+      ("pre/bad-version", "int32(_.Version()) == 0 -> return"),
+      ("pre/high-hash", "!_.CheckProofOfWork(_.Hash, _.Bits()) -> return"),
+      ("pre/time-too-new", "(_.Now().Unix() + 7200) < int64(_.BlockTime()) -> return"),
+      ("pre/index-collision", "!_.BlockHash.Equal(_.Hash) @ _ -> return"),
+      ("pre/genesis", "_.Parent == nil @ _ -> return"),
+      ("pre/bad-prevblk", "!_ || !_.Equal(_.BlockHash.Hash[:], _.ParentHash()) -> return"),
+      ("pre/too-deep", "(int(_.LastBlock().Height) - int(_.Height)) > 2015 && _ != _.LastBlock() -> return"),
+      ("pre/bad-diffbits", "_.Bits() != _.GetNextWorkRequired(_, _.BlockTime()) -> return"),
+      ("pre/time-too-old", "_.BlockTime() <= _.MedianPastTime -> return"),
+      ("pre/version-gate", "(_.Consensus.BIP34Height <= _.Height && int32(_.Version()) < 2) || (_.Consensus.BIP65Height <= _.Height && int32(_.Version()) < 4) || (_.Consensus.BIP66Height <= _.Height && int32(_.Version()) < 3) -> return"),
+      ("post/bad-blk-length", "len(_.Raw) < 81 -> return"),
+      ("post/bad-blk-weight", "_.BlockWeight > 4000000 @ _.Txs == nil -> return"),
+      ("post/bad-cb-missing", "!_.Txs[0].IsCoinBase() || _.Txs[0] == nil || len(_.Txs) == 0 @ !_.Trusted.Get() -> return"),
+      ("post/bad-cb-height", "!_.HasPrefix(_.Txs[0].TxIn[0].ScriptSig, _.UintToScript(_.Height)) @ !_.Trusted.Get() @ _.Consensus.BIP34Height <= _.Height -> return"),
+      ("post/bad-cb-multiple", "_.Txs[_].IsCoinBase() @ !_.Trusted.Get() -> return"),
+      ("post/bad-txns-duplicate", "_ -> return"),
+      ("post/bad-txnmrklroot", "!_.Equal(_, _.MerkleRoot()) -> return"),
+      ("post/bad-witness-nonce-size", "len(_.Txs[0].SegWit) != 1 || len(_.Txs[0].SegWit[0]) != 1 || len(_.Txs[0].SegWit[0][0]) != 32 @ !_.Trusted.Get() @ (_.VerifyFlags & 2048) != 0 @ _.Equal(_.Txs[0].TxOut[_].Pk_script[:6], {106,36,170,33,169,237}) && len(_.Txs[0].TxOut[_].Pk_script) > 37 -> return"),
+      ("post/bad-witness-merkle-match", "!_.Equal(_.Sha2Sum(append(_, _.Txs[0].SegWit[0][0]))[:], _.Txs[0].TxOut[_].Pk_script[6:38]) @ !_.Trusted.Get() @ (_.VerifyFlags & 2048) != 0 @ _.Equal(_.Txs[0].TxOut[_].Pk_script[:6], {106,36,170,33,169,237}) && len(_.Txs[0].TxOut[_].Pk_script) > 37 -> return"),
+      ("pre/assign-Height", "_.Height = (_.Height + 1)"),
+      ("pre/assign-MedianPastTime", "_.MedianPastTime = _.GetMedianTimePast()"),
+      ("post/commitment-search", "for _ = (len(_.Txs[0].TxOut) - 1); _ > -1; _--"),
+      ("post/locktime-cutoff", "if (_.VerifyFlags & 1024) != 0 { _ = _.MedianPastTime } else { _ = _.BlockTime() }"),
+      ("flags/rule-1", "$2 == 0 || $2 > 1333238399 => _ = 1"),
+      ("flags/rule-2", "$1 >= _.Consensus.BIP66Height => _ |= 4"),
+      ("flags/rule-3", "$1 >= _.Consensus.BIP65Height => _ |= 512"),
+      ("flags/rule-4", "$1 >= _.Consensus.Enforce_CSV && _.Consensus.Enforce_CSV != 0 => _ |= 1024"),
+      ("flags/rule-5", "$1 >= _.Consensus.Enforce_SEGWIT && _.Consensus.Enforce_SEGWIT != 0 => _ |= 2064"),
+      ("flags/rule-6", "$1 >= _.Consensus.Enforce_Taproot && _.Consensus.Enforce_Taproot != 0 => _ |= 131072"),
+      ("flags/apply", "_.VerifyFlags = _.GetBlockFlags(_.Height, _.BlockTime())"),
+      ("gnwr/timespan", "(int64(_.Timestamp()) - int64(_.Timestamp()))"),
+      ("build/base-weight-1", "((uint(VLenSize(uint64(_.TxCount))) + 80) * 4)"),
+      ("build/base-weight-2", "((uint64(VLenSize(uint64(_.TxCount))) + 80) * 4)"),
+      ("client-reset/data.go#1", "_.Block.BlockWeight, _.TotalInputs = 0, 0; _.Block.Raw = _; _.Block.TxCount, _.Block.TxOffset = 0, 0; _.Block.Txs = nil"),
+      ("client-reset/cblk.go#1", "_.Block.BlockWeight, _.TotalInputs = 0, 0; _.Block.Txs = nil; _.Block.UpdateContent(_.Header)"),
+      ("client-reset/cblk.go#2", "_.Block.BlockWeight, _.TotalInputs = 0, 0; _.Block.Txs = nil; _.Block.UpdateContent(_.Header)")] ∧
+    retargetParentSteps = targetInterval - 1 := by
+  exact ⟨rfl, by decide⟩
 
 /-- the activation heights and pow limit installed by NewChainExt (regenerated from lib/chain/chain.go on every
     run) are those of the three networks: BIP34/BIP65/BIP66/CSV/SegWit/Taproot heights of Bitcoin Core's
@@ -523,6 +583,84 @@ example :
         simp) rfl
   · exact gnwr_off_retarget_mainnet _ _ _ _ _ (by decide) rfl
 
+/-- **The testnet "last non-min-difficulty block" walk** (`for prv.Parent != nil && prv.Height%2016 != 0 && prv.Bits() ==
+    MaxPOWBits { prv = prv.Parent }`, used by the testnet3 off-boundary rule and as the testnet4 / BIP94 retarget base):
+    the answer is the bits of the FIRST node, walking from the previous block towards genesis, that has no parent, sits
+    on a retarget boundary or carries bits other than the minimum-difficulty value — every node passed over is a
+    min-difficulty block off the boundary. This is Core's `GetLastBlockIndex` loop. -/
+theorem testnet_walkback_spec (mp : Nat) (l : List Node) (hne : l ≠ []) :
+    ∃ pre n suf, l = pre ++ n :: suf ∧ walkBack mp l = n.bits ∧
+      (∀ m ∈ pre, m.height % targetInterval ≠ 0 ∧ m.bits = mp) ∧
+      (suf = [] ∨ n.height % targetInterval = 0 ∨ n.bits ≠ mp) := by
+  induction l with
+  | nil => exact absurd rfl hne
+  | cons n rest ih =>
+    cases rest with
+    | nil => exact ⟨[], n, [], rfl, rfl, by simp, Or.inl rfl⟩
+    | cons m rest =>
+      unfold walkBack
+      split
+      · rename_i hc
+        obtain ⟨pre, x, suf, hl, hw, hpre, hx⟩ := ih (by simp)
+        refine ⟨n :: pre, x, suf, by rw [hl]; rfl, hw, ?_, hx⟩
+        intro y hy
+        cases hy with
+        | head => exact hc
+        | tail _ h => exact hpre y h
+      · rename_i hc
+        refine ⟨[], n, m :: rest, rfl, rfl, by simp, Or.inr ?_⟩
+        by_cases h1 : n.height % targetInterval = 0
+        · exact Or.inl h1
+        · exact Or.inr (fun h2 => hc ⟨h1, h2⟩)
+
+
+/-- non-vacuity of `testnet_walkback_spec`: two min-difficulty blocks, then a real-difficulty one -/
+example : walkBack 0x1d00ffff [⟨5, 30, 0x1d00ffff⟩, ⟨4, 20, 0x1d00ffff⟩, ⟨3, 10, 0x1c00ffff⟩, ⟨2, 5, 0x1d00ffff⟩] = 0x1c00ffff ∧
+    walkBack 0x1d00ffff [⟨2016, 30, 0x1d00ffff⟩, ⟨2015, 20, 0x1c00ffff⟩] = 0x1d00ffff := by decide
+
+/-- GetNextWorkRequired away from a retarget height on a testnet (testnet3 and testnet4): a block more than two
+    target spacings (20 minutes) after its parent may carry the minimum difficulty; otherwise the bits of the last
+    non-min-difficulty block (`testnet_walkback_spec`) are demanded. Hypothesis `hts`: the uint32 sum
+    `lst.Timestamp()+TargetSpacing*2` does not wrap (parent time before 2106-02-07 06:08:15). -/
+theorem gnwr_off_retarget_testnet (p : Params) (lst : Node) (m : Node) (anc : List Node) (ts : Nat)
+    (hh : ((lst.height + 1) % 2^32) % targetInterval ≠ 0) (hnet : p.testnet = true)
+    (hts : lst.ts + 2 * TargetSpacing < 2^32) :
+    getNextWorkRequired p (lst :: m :: anc) ts =
+      some (if ts > lst.ts + 2 * TargetSpacing then p.maxPowBits else walkBack p.maxPowBits (lst :: m :: anc)) := by
+  unfold getNextWorkRequired
+  have e : testnetMinDiffGap = 2 * TargetSpacing := by decide
+  simp only [hnet, e, Nat.mod_eq_of_lt hts]
+  rw [if_pos hh]
+  simp only [if_true]
+  split <;> rfl
+
+
+/-- non-vacuity of `gnwr_off_retarget_testnet`: 1201 s after the parent the minimum is allowed, 1200 s after it not -/
+example :
+    let p : Params := { maxPowBits := 0x1d00ffff, maxPowValue := MaxPOWValue, testnet := true, testnet4 := false }
+    let ch : List Node := [⟨5, 10000, 0x1d00ffff⟩, ⟨4, 9000, 0x1c00ffff⟩, ⟨3, 8000, 0x1c00ffff⟩]
+    getNextWorkRequired p ch 11201 = some 0x1d00ffff ∧ getNextWorkRequired p ch 11200 = some 0x1c00ffff := by decide
+
+/-- **GetBlockFlags, flag by flag**: the script-verification flags of a block at (height, time) contain P2SH iff the
+    time is 0 or from the BIP16 switch time on, DERSIG / CLTV iff the height has reached the BIP66 / BIP65 height, CSV /
+    WITNESS+NULLDUMMY / TAPROOT iff the deployment is configured (non-zero) and the height has reached it. (PostCheckBlock
+    reads CSV for the lock-time cut-off and WITNESS for the commitment rule from exactly this value: `guard_shapes`.) -/
+theorem getBlockFlags_spec (c : Consensus) (height time : Nat) :
+    let f := getBlockFlags c height time
+    (f &&& VER_P2SH ≠ 0 ↔ (time = 0 ∨ time ≥ BIP16SwitchTime)) ∧
+    (f &&& VER_DERSIG ≠ 0 ↔ height ≥ c.bip66Height) ∧
+    (f &&& VER_CLTV ≠ 0 ↔ height ≥ c.bip65Height) ∧
+    (f &&& VER_CSV ≠ 0 ↔ (c.enforceCSV ≠ 0 ∧ height ≥ c.enforceCSV)) ∧
+    (f &&& VER_WITNESS ≠ 0 ↔ (c.enforceSegwit ≠ 0 ∧ height ≥ c.enforceSegwit)) ∧
+    (f &&& VER_NULLDUMMY ≠ 0 ↔ (c.enforceSegwit ≠ 0 ∧ height ≥ c.enforceSegwit)) ∧
+    (f &&& VER_TAPROOT ≠ 0 ↔ (c.enforceTaproot ≠ 0 ∧ height ≥ c.enforceTaproot)) := by
+  intro f
+  have h := Proofs.C05.flagsB_spec (decide (time = 0 ∨ time ≥ BIP16SwitchTime)) (decide (height ≥ c.bip66Height)) (decide (height ≥ c.bip65Height))
+        (decide (c.enforceCSV ≠ 0 ∧ height ≥ c.enforceCSV)) (decide (c.enforceSegwit ≠ 0 ∧ height ≥ c.enforceSegwit))
+        (decide (c.enforceTaproot ≠ 0 ∧ height ≥ c.enforceTaproot))
+  rw [← Proofs.C05.getBlockFlags_eq_flagsB] at h
+  simpa only [decide_eq_true_eq] using h
+
 /-- The block weight computed by BuildTxListExt is BIP141's: 3 × (size without witness data) + (total size),
     where both sizes count the 80-byte header, the transaction count and every transaction. -/
 theorem weight_formula (txs : List Tx) :
@@ -542,7 +680,12 @@ theorem weight_formula (txs : List Tx) :
     length (1 / 3 / 5 / 9 bytes); and PostCheckBlock's answer is the same for every such value. Rests on the
     regenerated source fact `buildTxListReadsCountAfterFallback` (the base weight reads the counter only after the
     `TxCount == 0` fallback has parsed it): with the base weight computed above the fallback, a header-first object is
-    weighed with a 1-byte counter and a block of 253..65535 transactions weighing 4,000,001..4,000,008 passes. -/
+    weighed with a 1-byte counter and a block of 253..65535 transactions weighing 4,000,001..4,000,008 passes.
+    What this does NOT say: the second conjunct is the first one again (once the fact is `true`, `builtWeight` ignores
+    `c`), and `i.txs` — the parse result — is an input: a STALE non-zero (TxCount, TxOffset) pair left from another Raw
+    makes the real parser read other bytes, which is outside this model (object histories: C09
+    `block_object_history_independent`; here the entry-path runs of the harness, which compare BlockWeight and the
+    verdict after a corrupt copy and the client's reset). -/
 theorem weight_entry_path_independent (h : Bytes → Bytes) (cns : Consensus) (i : PostIn) (c : Nat) :
     builtWeight c i.txs = blockWeight i.txs ∧
     postCheckBlock h cns { i with cntOnEntry := c } = postCheckBlock h cns i := by
@@ -603,15 +746,19 @@ theorem checkBlock_chain_unchanged {U : Type} (p : Params) (c : Consensus) (h : 
     structure; that the Go code writes nothing is what the harness's before/after snapshot of the real chain object
     tests). When `Chain.CheckBlock` refuses a block
     (any result other than `ok`), the chain state — block tree, `BlockIndex`, tip, unspent set — is returned
-    unchanged, and the block object differs from the one handed in at most in the five fields the function
-    assigns on its way (`Height`, `MedianPastTime`, `Txs`, `VerifyFlags`, and `TxCount` when it was still 0 and
-    BuildTxList parsed the count field): everything derived from `Raw`, the hash
-    and the trusted mark are as before. -/
+    unchanged, and the block object differs from the one handed in at most in the eight fields the function
+    assigns on its way: `Height`, `MedianPastTime` (PreCheckBlock), `VerifyFlags` (ApplyBlockFlags), and what
+    BuildTxListExt writes — `Txs`, `TxCount` / `TxOffset` when the counter was still 0 and the fallback parsed the count
+    field, `BlockWeight`, and `TotalInputs`, to which it ADDS (the field is never reset, so a second parse of the
+    same object doubles it: `afterPost`). Everything derived from `Raw`, the hash and the trusted mark are as before.
+    The record `BlockObj` lists every field of `btc.Block` that CheckBlock reads or writes; the harness compares all
+    eight with the real object after every whole-block case. -/
 theorem refused_unchanged {U : Type} (p : Params) (c : Consensus) (h : Bytes → Bytes) (now : Int)
     (cs cs' : ChainSt U) (bl bl' : BlockObj) (r : CheckRes)
     (hr : checkBlockM p c h now cs bl = some (cs', bl', r)) (_hne : r.code ≠ "ok") :
     cs' = cs ∧
-    { bl' with height := bl.height, mtp := bl.mtp, txs := bl.txs, verifyFlags := bl.verifyFlags, txCount := bl.txCount } = bl := by
+    { bl' with height := bl.height, mtp := bl.mtp, txs := bl.txs, verifyFlags := bl.verifyFlags, txCount := bl.txCount,
+               txOffset := bl.txOffset, weight := bl.weight, totalInputs := bl.totalInputs } = bl := by
   refine ⟨checkBlock_chain_unchanged p c h now cs cs' bl bl' r hr, ?_⟩
   unfold checkBlockM at hr
   split at hr
@@ -646,16 +793,20 @@ example : (checkBlockM (U := Unit)
     — so `precheck_sound` and `postcheck_sound` apply to exactly these inputs — the result carries neither `dos` nor
     `maybelater`, the block object holds height = parent height + 1, the parent's median-time-past and the flags of
     GetBlockFlags; `BlockIndex` has no entry under the block's own 8-byte key, and the entry `n` under the 8-byte key of
-    the header's previous-block field is a node whose WHOLE hash equals that field. -/
+    the header's previous-block field is a node of the tree (`n < cs.nodes.size`) whose RECORDED hash
+    (`cs.hashes[n]? = some …`, not the default 0 of a missing entry) equals that field as a whole.
+    Hypothesis `hwf`: the chain state records a hash for every node (`hashes` and `nodes` are parallel arrays; the
+    oracle's `node` request pushes to both). Without it `hashOf` would answer 0 for a node lacking a hash and a
+    previous-block field of 32 zero bytes would "match" it. -/
 theorem checkBlock_accept {U : Type} (p : Params) (c : Consensus) (h : Bytes → Bytes) (now : Int)
-    (cs cs' : ChainSt U) (bl bl' : BlockObj) (r : CheckRes)
+    (cs cs' : ChainSt U) (bl bl' : BlockObj) (r : CheckRes) (hwf : cs.hashes.size = cs.nodes.size)
     (hr : checkBlockM p c h now cs bl = some (cs', bl', r)) (hok : r.code = "ok") :
     ∃ o f, preCheckBlock p c (preInOf cs bl now) = some o ∧ o.err = .ok ∧
       postCheckBlock h c (postInOf (afterPre bl o)) = some (.ok, f) ∧
       r.dos = false ∧ r.maybelater = false ∧
       bl'.height = o.height ∧ bl'.mtp = o.mtp ∧ bl'.verifyFlags = f ∧
       lookupKey cs.index (bidx bl.hash) = none ∧
-      ∃ n, lookupKey cs.index (bidx bl.parentHash) = some n ∧ cs.hashOf n = bl.parentHash := by
+      ∃ n, lookupKey cs.index (bidx bl.parentHash) = some n ∧ n < cs.nodes.size ∧ cs.hashes[n]? = some bl.parentHash := by
   unfold checkBlockM at hr
   split at hr
   · simp at hr
@@ -687,12 +838,19 @@ theorem checkBlock_accept {U : Type} (p : Params) (c : Consensus) (h : Bytes →
           | none => simp [hl] at hpar
           | some n =>
             simp only [hl, Option.map_some, Option.some.injEq, Prod.mk.injEq] at hpar
-            exact ⟨n, rfl, hpar.1⟩
+            have hn : n < cs.nodes.size := Proofs.C05.chain_ne_nil_lt cs n (by rw [hpar.2]; simp)
+            refine ⟨n, rfl, hn, ?_⟩
+            have hh := hpar.1
+            unfold ChainSt.hashOf at hh
+            have hlt : n < cs.hashes.size := by omega
+            simp only [Array.getElem?_eq_getElem hlt, Option.getD_some] at hh ⊢
+            rw [hh]
 
 /-- non-vacuity of `checkBlock_accept`: a one-transaction block (a coinbase whose script starts with the push of
     height 1, Merkle root = its txid under the toy hash `take 1`, no segwit) on a one-node chain, whose previous-block
     field is the WHOLE hash of that node, is accepted by the model; height 1, MTP 900 and the flags of
-    GetBlockFlags are left in the block object. -/
+    GetBlockFlags are left in the block object, BlockWeight = 4·81 + 400 is assigned and TotalInputs grows by the one
+    input parsed (5 → 6: the field accumulates). -/
 example : (checkBlockM (U := Unit)
     { maxPowBits := 0x207fffff, maxPowValue := setCompact 0x207fffff, testnet := false, testnet4 := false }
     { bip34Height := 1, bip65Height := 1, bip66Height := 1, enforceCSV := 0, enforceSegwit := 0, enforceTaproot := 0 }
@@ -702,8 +860,9 @@ example : (checkBlockM (U := Unit)
       trusted := false,
       build := some [{ ins := [{ null := true, seq := 0xffffffff, scriptLen := 3 }], in0Script := [0x51, 1, 2], outs := [[0x51]],
                        outValues := [5000000000], segwit := none, txid := [9], wtxid := [9], lockTime := 0, noWitSize := 100, size := 100 }],
-      buildOk := true, height := 0, mtp := 0, txs := none, verifyFlags := 0 }).map (fun x => (x.2.2, x.2.1.height, x.2.1.mtp))
-      = some ({ dos := false, maybelater := false, code := "ok" }, 1, 900) := by
+      buildOk := true, height := 0, mtp := 0, txs := none, verifyFlags := 0, totalInputs := 5 }).map
+        (fun x => (x.2.2, x.2.1.height, x.2.1.mtp, x.2.1.weight, x.2.1.totalInputs, x.2.1.txOffset))
+      = some ({ dos := false, maybelater := false, code := "ok" }, 1, 900, 4 * (80 + 1) + 400, 5 + 1, 0) := by
   decide +kernel
 
 /-- **Version gating, pointwise, on the three networks** (activation heights regenerated from NewChainExt, minimum
